@@ -115,3 +115,79 @@ def overridden_preset(form: int, a: int, x1: int, x2: int, y: int) -> int:
     if runs != n1:
         return 0
     return 2
+
+
+@harness("C02", lemma="effects-added-later", stubs=("S1",), example=dict(a=1, b=2, same=False), timeout=300,
+         bounds="a cached dataset that is used (evaluate / keys / validate) before an effect is attached with add_effect(); then "
+                "evaluated on the same or on new options",
+         what="an effect attached at any time runs once per later body execution (after it, with its value) and never on a cache hit")
+def effects_added_later(a: int, b: int, same: bool) -> int:
+    runs, effs = [], []
+    with untraced():
+        def body(x=Option("A")):
+            runs.append(x)
+            return ("v", x)
+
+        d = dataset(body)
+    with quiet():
+        d.keys({"A": a})
+        first = outcome(lambda: d({"A": a}))
+        d.add_effect(lambda v: effs.append(v))
+        second = outcome(lambda: d({"A": a if same else b}))
+    note("first", first, "second", second, "body runs", runs, "effect calls", effs)
+    if first[0] != "ok" or second[0] != "ok":
+        return 0
+    reran = len(runs) == 2
+    if same or a == b:
+        if reran or effs:
+            return 0          # a hit: no body, no effect
+        return 1
+    if not reran:
+        return 0
+    if len(effs) != 1 or not same_value(effs[0], ("v", b)):
+        return 0
+    return 2
+
+
+def same_value(x, y):
+    return same(x, y)
+
+
+@harness("C02", lemma="overload-implementations", stubs=("S1",), example=dict(x=1, how=0), pre=["0 <= how <= 1"], timeout=300,
+         bounds="an implementation given to @parent.overload([...]) as a bare function under two aliases / used directly by another "
+                "consumer in the same evaluation (diamond through the parent's dispatch)",
+         what="an implementation defined with the overload decorator is itself memoized: reached through a second alias, or shared by "
+              "two consumers, with its own options unchanged, its body runs once")
+def overload_implementations(x: int, how: int) -> int:
+    runs = []
+    with untraced():
+        def base(a=Option("A", 0)):
+            runs.append("base")
+            return ("base", a)
+
+        parent = dataset(base, dispatch="D")
+
+        @parent.overload(["FAST", "QUICK"])
+        def fast(v=Option("X")):
+            runs.append("fast")
+            return ("fast", v)
+
+        def both(p=parent, f=fast):
+            return (p, f)
+
+        consumer = dataset(both)
+    with quiet():
+        if how == 0:
+            r1 = outcome(lambda: parent({"D": "FAST", "X": x}))
+            r2 = outcome(lambda: parent({"D": "QUICK", "X": x}))
+            ok = r1 == ("ok", ("fast", x)) or (r1[0] == "ok" and same(r1[1], ("fast", x)))
+            ok = ok and r2[0] == "ok" and same(r2[1], ("fast", x))
+        else:
+            r1 = outcome(lambda: consumer({"D": "FAST", "X": x}))
+            ok = r1[0] == "ok" and same(r1[1], (("fast", x), ("fast", x)))
+    note("how", how, "result", r1, "body runs", runs)
+    if not ok:
+        return 0
+    if runs.count("fast") != 1:
+        return 0
+    return 2
